@@ -88,6 +88,45 @@ func checkC34(c *Ctx) (string, []string) {
 		})
 	}
 
+	// the set of signing validators is the guarantee's own: a set filled from a guarantee's signatures is created in the
+	// iteration that fills it (inside every loop around the loop over the signatures) — a set carried across
+	// guarantees credits validators for reports they did not sign
+	{
+		f := fn["UpdateReportStatistics"]
+		nsets := 0
+		for _, g := range withClosuresAndHelpers(f) {
+			allInstrs(g, func(in ssa.Instruction) {
+				mu, ok := in.(*ssa.MapUpdate)
+				if !ok {
+					return
+				}
+				ks := exprStr(mu.Key, shapeOpts)
+				if !strings.Contains(ks, "Signatures[") || !strings.Contains(ks, "ValidatorIndex") {
+					return
+				}
+				nsets++
+				key := funcKey(g) + " · signer set " + abbr(exprStr(mu.Map, shapeOpts))
+				mk, isMk := resolveLocal(mu.Map).(*ssa.MakeMap)
+				if !isMk {
+					mk, isMk = stripConv(mu.Map).(*ssa.MakeMap)
+				}
+				loops := enclosingLoops(mu.Block())
+				okFresh := isMk
+				if isMk && len(loops) > 1 {
+					for _, l := range loops[1:] {
+						if !l[mk.Block()] {
+							okFresh = false
+						}
+					}
+				}
+				c.Check(okFresh, "C34.validator-record", key, mu.Pos(), "created in the iteration that fills it from that guarantee's signatures", "the set filled from a guarantee's signatures is created outside the loop over the guarantees and never renewed: signers of earlier guarantees are looked up for later ones")
+			})
+		}
+		if nsets == 0 {
+			c.Bad("C34.validator-record", "internal/statistics.UpdateReportStatistics · signer set", f.Pos(), "no set of signing validator indices is built from the guarantees' signatures")
+		}
+	}
+
 	c.Rule("C34.author-dispatch", "UpdateCurrentStatistics applies the six updaters to the posterior π with the header's author index and the block's own extrinsic parts (tickets, preimages ×2, guarantees with posterior τ and κ, assurances) and writes back only the current validator records (SetPiCurrent)", 7)
 	st := "alloc:internal/types.Statistics"
 	_ = postPi
@@ -267,4 +306,22 @@ func lookupOfCond(e edge) *ssa.Lookup {
 	}
 	l, _ := ex.Tuple.(*ssa.Lookup)
 	return l
+}
+
+// withClosuresAndHelpers: f, its closures, and the same-package functions it calls directly.
+func withClosuresAndHelpers(f *ssa.Function) []*ssa.Function {
+	out := withClosures(f)
+	seen := map[*ssa.Function]bool{}
+	for _, g := range out {
+		seen[g] = true
+	}
+	allInstrs(f, func(in ssa.Instruction) {
+		if ci, ok := in.(ssa.CallInstruction); ok {
+			if g := calleeFunc(ci); g != nil && len(g.Blocks) > 0 && g.Pkg == f.Pkg && !seen[g] {
+				seen[g] = true
+				out = append(out, g)
+			}
+		}
+	})
+	return out
 }
